@@ -30,7 +30,7 @@ func init() {
 			"non-trivial = rotations and seals overlapped reader calls; distinct = (writers, readers, GOMAXPROCS, fraction size class, delay seed)",
 		Assumptions: []string{
 			"the scheduler is sampled, not enumerated; evidence reports rotations/seals overlapping reader calls and hook hits per point",
-			"a stall is decided by the orchestrator's wall-clock watchdog and reported as inconclusive with a goroutine dump",
+			"bounded progress: no completed bulk/search/fetch for 60 s with goroutines still outstanding, or a store that does not stop within 90 s, is reported as a stall (the statement's 'no deadlock'); the orchestrator's wall-clock watchdog stays inconclusive",
 		},
 		Batches: tiered(32, 256),
 		Run:     runC07,
